@@ -18,7 +18,7 @@ TRUSTED_BASE = [
 ASSUMPTIONS = ['single namespace; element names without whitespace; comments/PIs not modelled',
                'explicit eId attributes written by the author on exempt elements are outside the presence theorem (known finding F8)']
 
-PREFIXES = ['', '', 'p_1', 'chp_1__sec_2', 'x']
+PREFIXES = ['', '', 'p_1', 'chp_1__sec_2', 'x', '_tmp', '__draft', '_', 'tmp_', 'a__', '\u00e9_1', '1', 'sec_1_2']
 
 # nums that look alike or are equivalent under some normalisation (case, Unicode canonical/compatibility forms, digit scripts):
 # as siblings they must still get distinct ids
